@@ -645,7 +645,8 @@ class Learner2D(BaseLearner):
 
     def _data_interp(self) -> tuple[np.ndarray | list[tuple[float, float]], np.ndarray]:
         if self.pending_points:
-            points = list(self.pending_points)
+            # sorted: the interpolation must not depend on the iteration order of a set
+            points = sorted(self.pending_points)
             if self.bounds_are_done:
                 ip = self.interpolator(scaled=True)
                 values = ip(self._scale(points))
